@@ -157,8 +157,9 @@ class FrontMatterExtension(ParserExtension):
         POGGER.debug("ret=$s,type=$s", matter_map, type(matter_map))
         if matter_map is None or isinstance(matter_map, str):
             POGGER.info("Metadata validation failed: $", matter_map)
+            assert next_line is not None
             collected_lines.insert(0, starting_line)
-            collected_lines.append(starting_line)
+            collected_lines.append(next_line)
             return None, None, 1, collected_lines
 
         POGGER.info("Metadata validation succeeded.")
